@@ -1,12 +1,253 @@
 /-
-Props.C07 — Byte sequences behave as a flat zero-extended byte array (work in progress: theorems are added below).
+Props.C07 — Byte sequences behave as a flat zero-extended byte array.
+
+Model: `Model.ByteVec` (halmos/bytevec.py, branch for branch).  Spec: `Spec.Bytes` (flat arrays of byte symbols).
+
+Part A — each `ByteVec` method refines the corresponding flat-array operation and preserves the layout
+invariant `WF` (`_well_formed`: contiguous, non-empty chunks, lengths sum to `length`).  These theorems are
+generic in the chunk operations `O` (any `Lawful O`), so they cover a single call of either model variant.
+
+Part B — histories on a pool of named objects.  For the non-aliasing variant (`run false`) every history is
+observationally equal to the same history on independent flat arrays (`history_refines`), an operation changes
+only its target (`step_frame`), and a copy and its original evolve independently (`copy_independent`).
+For the aliasing variant (`run true` = bytevec.py:584-586 as it stands: an aligned `set_slice` keeps the value
+*object* as a chunk) the refinement is **false**: `history_refines_alias_cex`, `copy_independent_alias_cex`;
+the harness replays the witnesses on the real code.
+
+Excluded inputs (stated, not silently dropped): an object passed whole as the value of its own `append` /
+`set_slice` (`Op.selfData`; both sides answer `unsupported`), and negative offsets (Python raises `IndexError`;
+offsets are `Nat` here) — the harness checks the latter directly.
 -/
-import HalmosVerif.Model.ByteVec
+import HalmosVerif.Lemmas.ByteVecPool
 
 namespace HalmosVerif.Props.C07
-open HalmosVerif.Spec HalmosVerif.Model.BV
+open HalmosVerif.Spec HalmosVerif.Model.BV HalmosVerif.Model.BV.BVec
 
-/-- the 3-operation witness (two appends to set the stage): `a[0:5] = b; b[1:3] = "$$"; read a` -/
+/-! ## Part A: the methods -/
+
+section
+variable {C : Type} (O : ChunkOps C)
+
+/-- `length` is the number of bytes of the flattened content. -/
+theorem refines_length (hO : Lawful O) (bv : BVec C) (h : WF O bv) :
+    bv.length = (flatten O bv).length :=
+  (WF.length_eq hO h).symm
+
+/-- `append` -/
+theorem refines_append (hO : Lawful O) (bv : BVec C) (c : C) (h : WF O bv) :
+    WF O (append O bv c) ∧ flatten O (append O bv c) = Flat.append (flatten O bv) (O.bytes c) :=
+  append_spec O hO bv c h
+
+/-- `set_byte`: a one-byte value is written (with zero back-fill past the end); anything else is rejected. -/
+theorem refines_set_byte (hO : Lawful O) (bv : BVec C) (off : Nat) (v : C) (h : WF O bv) :
+    (O.len v = 1 → ∃ bv', setByte O bv off v = .ok bv' ∧ WF O bv' ∧
+        flatten O bv' = Flat.write (flatten O bv) off (O.bytes v)) ∧
+    (O.len v ≠ 1 → setByte O bv off v = .error .assertion) :=
+  ⟨fun hv => setByte_spec O hO bv off v h hv, fun hv => setByte_err O bv off v hv⟩
+
+/-- `set_slice`: empty range = no-op; reversed range or wrong value length = `ValueError`; otherwise the write
+    (aligned fast path, back-fill past the end, and the general splitting path alike). -/
+theorem refines_set_slice (hO : Lawful O) (bv : BVec C) (s e : Nat) (v : Value C) (h : WF O bv) (hv : v.WF O) :
+    (s = e → setSlice O bv s e v = .ok bv) ∧
+    (s > e → setSlice O bv s e v = .error .valueError) ∧
+    (s < e → e - s ≠ v.len O → setSlice O bv s e v = .error .valueError) ∧
+    (s < e → e - s = v.len O → ∃ bv', setSlice O bv s e v = .ok bv' ∧ WF O bv' ∧
+        flatten O bv' = Flat.write (flatten O bv) s (v.bytes O)) :=
+  ⟨fun he => he ▸ setSlice_noop O bv s v, setSlice_err_order O bv s e v, setSlice_err_len O bv s e v,
+   fun h1 h2 => setSlice_spec O hO bv s e v h hv h1 h2⟩
+
+/-- `set_word` -/
+theorem refines_set_word (hO : Lawful O) (bv : BVec C) (off : Nat) (w : C) (h : WF O bv) :
+    (O.len w = 32 → ∃ bv', setWord O bv off w = .ok bv' ∧ WF O bv' ∧
+        flatten O bv' = Flat.write (flatten O bv) off (O.bytes w)) ∧
+    (O.len w ≠ 32 → setWord O bv off w = .error .valueError) := by
+  constructor
+  · intro hw
+    exact setSlice_spec O hO bv off (off + 32) (.one w) h trivial (by omega) (by simp [Value.len, hw])
+  · intro hw
+    exact setSlice_err_len O bv off (off + 32) (.one w) (by omega) (by simp [Value.len]; omega)
+
+/-- the size after a write is the highest offset written -/
+theorem length_after_write (f : Flat) (s : Nat) (d : List Byte) (hd : d ≠ []) :
+    (Flat.write f s d).length = max f.length (s + d.length) := by
+  by_cases h : s ≤ f.length
+  · rw [Flat.write_of_le f s d hd h]; simp; omega
+  · rw [Flat.write_past f s d hd (by omega)]; simp [Flat.zeros]; omega
+
+/-- `slice`: zero-extended read, for every `start`, `stop` (also beyond the end, also `stop ≤ start`) -/
+theorem refines_slice (hO : Lawful O) (bv : BVec C) (s e : Nat) (h : WF O bv) :
+    WF O (slice O bv s e) ∧ flatten O (slice O bv s e) = Flat.read (flatten O bv) s e :=
+  slice_spec O hO bv s e h
+
+/-- `get_byte`: zero beyond the end -/
+theorem refines_get_byte (hO : Lawful O) (bv : BVec C) (off : Nat) (h : WF O bv) :
+    getByte O bv off = Flat.get (flatten O bv) off :=
+  getByte_spec O hO bv off h
+
+/-- `get_word` -/
+theorem refines_get_word (hO : Lawful O) (bv : BVec C) (off : Nat) (h : WF O bv) :
+    getWord O bv off = Flat.word (flatten O bv) off :=
+  getWord_spec O hO bv off h
+
+/-- `concretize` (needs no well-formedness of the source: it re-appends every chunk) -/
+theorem refines_concretize (hO : Lawful O) (bv : BVec C) (σ : String → Option (List Nat)) :
+    WF O (concretize O bv σ) ∧ flatten O (concretize O bv σ) = Flat.subst σ (flatten O bv) :=
+  concretize_spec O hO bv σ
+
+/-- reads beyond the end are zero -/
+theorem read_past_end (f : Flat) (s e : Nat) (h : f.length ≤ s) : f.read s e = Flat.zeros (e - s) := by
+  apply List.ext_getElem
+  · simp [Flat.read, Flat.zeros]
+  · intro i h1 h2
+    simp only [Flat.read, List.getElem_map, List.getElem_range, Flat.get, Flat.zeros, List.getElem_replicate]
+    rw [List.getD_eq_getElem?_getD, List.getElem?_eq_none (by omega)]
+    rfl
+
+end
+
+/-- the chunk operations of concrete/symbolic leaf chunks are lawful -/
+theorem leaf_chunks_lawful : Lawful leafOps := leafOps_lawful
+
+/-- a well-formed mixed object: `[01 02][x[1..3]]` -/
+def sampleBV : BVec Leaf := ⟨[(0, .conc [1, 2] 0 2), (2, .symb "x" 4 1 3)], 5⟩
+
+example : WF leafOps sampleBV := by simp [WF, Contig, total, leafOps, Piece.len, sampleBV]
+example : flatten leafOps sampleBV = [.lit 1, .lit 2, .sym "x" 1, .sym "x" 2, .sym "x" 3] := by decide
+-- set_byte inside the symbolic chunk splits it; past the end back-fills zeros
+example : (setByte leafOps sampleBV 3 (.conc [0xee] 0 1)).toOption.map (flatten leafOps)
+    = some [.lit 1, .lit 2, .sym "x" 1, .lit 0xee, .sym "x" 3] := by decide
+example : (setByte leafOps sampleBV 7 (.conc [0xee] 0 1)).toOption.map (flatten leafOps)
+    = some [.lit 1, .lit 2, .sym "x" 1, .sym "x" 2, .sym "x" 3, .lit 0, .lit 0, .lit 0xee] := by decide
+-- set_slice straddling both chunks and growing the object (general path), and an aligned one
+example : (setSlice leafOps sampleBV 1 7 (.one (.symb "y" 6 0 6))).toOption.map (fun b => (flatten leafOps b, b.length))
+    = some ([.lit 1, .sym "y" 0, .sym "y" 1, .sym "y" 2, .sym "y" 3, .sym "y" 4, .sym "y" 5], 7) := by decide
+example : (setSlice leafOps sampleBV 0 2 (.one (.conc [9, 8] 0 2))).toOption.map (fun b => b.chunks.length)
+    = some 2 := by decide
+example : (match setSlice leafOps sampleBV 1 3 (.one (.conc [9] 0 1)) with
+    | .error .valueError => true | _ => false) = true := by decide
+-- slice beyond the end is zero-extended
+example : flatten leafOps (slice leafOps sampleBV 4 8) = [.sym "x" 3, .lit 0, .lit 0, .lit 0] := by decide
+example : getByte leafOps sampleBV 9 = Byte.zero := by decide
+
+/-! ## Part B: histories on a pool of objects -/
+
+/-- One operation: same reply, and the refinement relation (which includes `WF` of every object) is kept. -/
+theorem step_refines {p : Pure.Pool} {q : FlatPool.Pool} (h : Inv p q) (op : Op) :
+    (Pure.step p op).2 = (FlatPool.step q op).2 ∧ Inv (Pure.step p op).1 (FlatPool.step q op).1 := by
+  unfold Pure.step FlatPool.step
+  by_cases hs : op.selfData = true
+  · rw [if_pos hs, if_pos hs]; exact ⟨rfl, h⟩
+  · rw [if_neg hs, if_neg hs]
+    have L := leafOps_lawful
+    cases op with
+    | new a => exact ⟨rfl, inv_set h a _ _ (wf_empty _) rfl⟩
+    | append a d =>
+      have hd := dataValue_spec h d
+      have := appendValue_spec leafOps L (p a) (Pure.dataValue p d) (h a).1
+      refine ⟨rfl, inv_set h a _ _ this.1 ?_⟩
+      rw [flatten_eq, this.2, hd.2, ← flatten_eq, (h a).2]; rfl
+    | setByte a off x =>
+      simp only
+      by_cases hx : x.len ≠ 1
+      · rw [if_pos hx, setByte_err leafOps _ _ _ hx]; exact ⟨rfl, h⟩
+      · rw [if_neg hx]
+        obtain ⟨bv', e, hw, hf⟩ := setByte_spec leafOps L (p a) off x (h a).1 (by change x.len = 1; omega)
+        rw [e]
+        refine ⟨rfl, inv_set h a _ _ hw ?_⟩
+        rw [flatten_eq, hf, ← flatten_eq, (h a).2]; rfl
+    | setSlice a s e d =>
+      simp only
+      have hd := dataValue_spec h d
+      have hl := dataValue_len h d
+      by_cases h1 : s = e
+      · subst h1
+        rw [if_pos rfl, setSlice_noop]
+        exact ⟨rfl, inv_set_left h a⟩
+      · rw [if_neg h1]
+        by_cases h2 : s > e
+        · rw [if_pos h2, setSlice_err_order leafOps _ _ _ _ h2]; exact ⟨rfl, h⟩
+        · rw [if_neg h2]
+          by_cases h3 : e - s ≠ (FlatPool.dataBytes q d).length
+          · rw [if_pos h3, setSlice_err_len leafOps _ _ _ _ (by omega) (by rw [hl]; exact h3)]
+            exact ⟨rfl, h⟩
+          · rw [if_neg h3]
+            obtain ⟨bv', e', hw, hf⟩ := setSlice_spec leafOps L (p a) s e _ (h a).1 hd.1 (by omega)
+              (by rw [hl]; simpa using h3)
+            rw [e']
+            refine ⟨rfl, inv_set h a _ _ hw ?_⟩
+            rw [flatten_eq, hf, hd.2, ← flatten_eq, (h a).2]
+    | setWord a off x =>
+      simp only
+      by_cases hx : x.len ≠ 32
+      · rw [if_pos hx]
+        have := setSlice_err_len leafOps (p a) off (off + 32) (.one x) (by omega)
+          (by simp only [Value.len]; show off + 32 - off ≠ x.len; omega)
+        unfold setWord
+        rw [this]; exact ⟨rfl, h⟩
+      · rw [if_neg hx]
+        obtain ⟨bv', e', hw, hf⟩ := setSlice_spec leafOps L (p a) off (off + 32) (.one x) (h a).1 trivial
+          (by omega) (by simp only [Value.len]; show off + 32 - off = x.len; omega)
+        unfold setWord
+        rw [e']
+        refine ⟨rfl, inv_set h a _ _ hw ?_⟩
+        rw [flatten_eq, hf, ← flatten_eq, (h a).2]; rfl
+    | copy a b => exact ⟨rfl, inv_set h b _ _ (h a).1 (h a).2⟩
+    | slice a s e b =>
+      have := slice_spec leafOps L (p a) s e (h a).1
+      have hf : flatten leafOps (slice leafOps (p a) s e) = (q a).read s e := by
+        rw [flatten_eq, this.2, ← flatten_eq, (h a).2]
+      simp only
+      rw [hf]
+      exact ⟨rfl, inv_set h b _ _ this.1 hf⟩
+    | concretize a σ b =>
+      have := concretize_spec leafOps L (p a) (FlatPool.substOf σ)
+      refine ⟨rfl, inv_set h b _ _ this.1 ?_⟩
+      rw [flatten_eq, this.2, ← flatten_eq, (h a).2]
+    | getByte a off =>
+      simp only
+      rw [getByte_spec leafOps L (p a) off (h a).1, ← flatten_eq, (h a).2]
+      exact ⟨rfl, h⟩
+    | getWord a off =>
+      simp only
+      rw [getWord_spec leafOps L (p a) off (h a).1, ← flatten_eq, (h a).2]
+      exact ⟨rfl, h⟩
+    | unwrap a => simp only; rw [(h a).2]; exact ⟨rfl, h⟩
+    | len a =>
+      simp only
+      rw [← (h a).2, flatten_eq, WF.length_eq L (h a).1]
+      exact ⟨rfl, h⟩
+
+/-- `_well_formed` is an invariant of every operation on every object of the pool. -/
+theorem wf_preserved (p : Pure.Pool) (h : ∀ a, WF leafOps (p a)) (op : Op) :
+    ∀ a, WF leafOps ((Pure.step p op).1 a) := by
+  have hinv : Inv p (fun a => flatten leafOps (p a)) := fun a => ⟨h a, rfl⟩
+  intro a
+  exact ((step_refines hinv op).2 a).1
+
+theorem run_refines {p : Pure.Pool} {q : FlatPool.Pool} (h : Inv p q) (ops : List Op) :
+    Pure.run p ops = FlatPool.run q ops := by
+  induction ops generalizing p q with
+  | nil => rfl
+  | cons op rest ih =>
+    have := step_refines h op
+    simp only [Pure.run, FlatPool.run]
+    rw [this.1, ih this.2]
+
+/-- **Every history** of appends, byte/word/slice writes (concrete, symbolic, mixed, from other objects, from
+    overlapping slices of the same object), copies, slices, concretisations and reads on any number of objects
+    gives exactly the replies of the same history on independent flat zero-extended arrays. -/
+theorem history_refines (ops : List Op) : run false ops = FlatPool.run FlatPool.init ops := by
+  simp only [run]
+  exact run_refines inv_init ops
+
+/-- the state after any history is well formed and flattens to the flat arrays' state -/
+theorem exec_refines {p : Pure.Pool} {q : FlatPool.Pool} (h : Inv p q) (ops : List Op) :
+    ∃ q', Inv (Pure.exec p ops) q' := by
+  induction ops generalizing p q with
+  | nil => exact ⟨q, h⟩
+  | cons op rest ih => exact ih (step_refines h op).2
+
+/-- the 3-operation witness (after two appends that set the stage): `a[0:5] = b; b[1:3] = "$$"; read a` -/
 def aliasWitness : List Op :=
   [ .append "a" (.raw (.conc [1, 2, 3, 4, 5] 0 5)),
     .append "b" (.raw (.conc [0xaa, 0xbb, 0xcc, 0xdd, 0xee] 0 5)),
@@ -14,11 +255,77 @@ def aliasWitness : List Op :=
     .setSlice "b" 1 3 (.raw (.conc [0x24, 0x24] 0 2)),
     .unwrap "a" ]
 
-/-- The aliasing variant (bytevec.py as it stands) does **not** refine the flat arrays. -/
+example : run false aliasWitness
+    = [.unit, .unit, .unit, .unit, .bytes [.lit 0xaa, .lit 0xbb, .lit 0xcc, .lit 0xdd, .lit 0xee]] := by decide
+
+/-- The aliasing variant (bytevec.py as it stands) does **not** refine the flat arrays: the full statement
+    `∀ ops, run true ops = FlatPool.run FlatPool.init ops` is false. -/
 theorem history_refines_alias_cex :
     ¬ ∀ ops : List Op, run true ops = FlatPool.run FlatPool.init ops := by
   intro h
   have := h aliasWitness
+  revert this
+  decide
+
+example : run true aliasWitness
+    = [.unit, .unit, .unit, .unit, .bytes [.lit 0xaa, .lit 0x24, .lit 0x24, .lit 0xdd, .lit 0xee]] := by decide
+
+/-- An operation changes only the object it targets. -/
+theorem step_frame (p : Pure.Pool) (op : Op) (x : String) (h : op.target ≠ some x) :
+    (Pure.step p op).1 x = p x := by
+  unfold Pure.step
+  by_cases hs : op.selfData = true
+  · rw [if_pos hs]
+  · rw [if_neg hs]
+    have hset : ∀ (a : String) (v : BVec Leaf), a ≠ x → Pure.set p a v x = p x := by
+      intro a v hax; simp [Pure.set, Ne.symm hax]
+    have hupd : ∀ (a : String) (r : Except Err (BVec Leaf)), a ≠ x → (Pure.upd p a r).1 x = p x := by
+      intro a r hax; cases r <;> simp [Pure.upd, hset a _ hax]
+    cases op <;> simp only [Op.target, ne_eq, Option.some.injEq] at h <;>
+      first
+        | rfl
+        | exact hset _ _ h
+        | exact hupd _ _ h
+
+theorem exec_frame (p : Pure.Pool) (ops : List Op) (x : String) (h : ∀ op ∈ ops, op.target ≠ some x) :
+    Pure.exec p ops x = p x := by
+  induction ops generalizing p with
+  | nil => rfl
+  | cons op rest ih =>
+    simp only [Pure.exec]
+    rw [ih _ (fun o ho => h o (by simp [ho])), step_frame p op x (h op (by simp))]
+
+/-- A copy and its original evolve independently: after `b := a.copy()` (or `deepcopy(State)`), no history
+    that does not write `b` changes `b` (it still is `a` at the time of the copy), and no history that does not
+    write `a` changes `a` — whatever is done to the other one. -/
+theorem copy_independent (p : Pure.Pool) (a b : String) (hab : a ≠ b) (ops : List Op) :
+    ((∀ op ∈ ops, op.target ≠ some b) → Pure.exec (Pure.step p (.copy a b)).1 ops b = p a) ∧
+    ((∀ op ∈ ops, op.target ≠ some a) → Pure.exec (Pure.step p (.copy a b)).1 ops a = p a) := by
+  constructor
+  · intro h
+    rw [exec_frame _ ops b h]
+    simp [Pure.step, Op.selfData, Pure.set]
+  · intro h
+    rw [exec_frame _ ops a h]
+    simp [Pure.step, Op.selfData, Pure.set, hab]
+
+/-- history in which the copy `c` of `a` is read after the *value object* `b` was modified -/
+def copyWitness : List Op :=
+  [ .append "a" (.raw (.conc [1, 2, 3, 4, 5] 0 5)),
+    .append "b" (.raw (.conc [0xaa, 0xbb, 0xcc, 0xdd, 0xee] 0 5)),
+    .setSlice "a" 0 5 (.obj "b"),
+    .copy "a" "c",
+    .setSlice "b" 1 3 (.raw (.conc [0x24, 0x24] 0 2)),
+    .unwrap "c" ]
+
+example : (∀ op ∈ copyWitness.drop 4, op.target ≠ some "c") := by decide
+example : run false copyWitness = FlatPool.run FlatPool.init copyWitness := by decide
+
+/-- In the aliasing variant a copy is not independent either: `c = a.copy()` still changes when `b` does. -/
+theorem copy_independent_alias_cex :
+    ¬ ∀ ops : List Op, run true ops = FlatPool.run FlatPool.init ops := by
+  intro h
+  have := h copyWitness
   revert this
   decide
 
